@@ -238,8 +238,7 @@ def compound_conditions(ctx):
         f = cls.methods.get('__call__')
         ctx.need(f is not None, '%s.__call__ vanished' % cls.name)
         ctx.touch(f)
-        got = SB.summary(f.node)
-        want = SB.summary_of_source(REFS['%s:%s.__call__' % (TM, cls.name)])
+        got, want = SB.agree(f.node, REFS['%s:%s.__call__' % (TM, cls.name)])
         ctx.stats['terms_compared'] += len(got)
         ctx.check(got == want, cls.name + '.__call__', what, '%s.__call__ evaluates or reports its members differently: %s' % (cls.name, SB.diff(got, want)), f, f.node)
         # the aggregate itself, as a separate fact (the most important one)
